@@ -7,7 +7,7 @@ import random, itertools, json, os
 import graphs, fences_env
 from common import Check, run_driver, VERIF
 
-VARIANT = (1, 1)      # model variant that corresponds to /repo after the fix: commits
+VARIANT = (1, 1, 1)      # model variant that corresponds to /repo after the fix: commits
 FUEL = 700
 RECLIMIT = 2600
 
@@ -55,7 +55,7 @@ def exhaustive_programs(max_nodes, max_edges):
 
 
 def _nontrivial(ops):
-    return sum(1 for o in ops if o[0] != 'T') >= 3
+    return sum(1 for o in ops if o[0] not in 'TG') >= 3
 
 
 def shrink(ops, root, bad):
@@ -75,10 +75,10 @@ def shrink(ops, root, bad):
             except Exception:  # noqa
                 pass
         # drop last node if unused
-        nodes = [o for o in ops if o[0] != 'T']
+        nodes = [o for o in ops if o[0] not in 'TG']
         last = len(nodes) - 1
         if last > root and not any(o[0] == 'T' and last in (o[1], o[2]) for o in ops):
-            idx = max(i for i, o in enumerate(ops) if o[0] != 'T')
+            idx = max(i for i, o in enumerate(ops) if o[0] not in 'TG')
             cand = ops[:idx] + ops[idx + 1:]
             try:
                 if bad(cand, root):
@@ -91,31 +91,40 @@ def shrink(ops, root, bad):
 
 # ------------------------------------------------------------------------------------------
 # reference interpreter written independently of the model and of the implementation
-def simulate(ops, root, path):
+def simulate(ops, root, path, full=False):
+    """the semantics stated in C04: a leaf consumes nothing; a choose-one decision consumes one index and
+    takes that branch; a do-all decision runs all branches in order, each on the data the decision itself
+    produced; the value returned is that of the last node run (None for a do-all without branches)"""
     kinds, outs = graphs._tables(ops)
     pos = [0]
     trace = []
 
-    def run(n, depth=0):
+    def run(n, data, depth=0):
         if depth > 400:
             raise RecursionError()
-        trace.append(n)
         k = kinds[n]
-        if k[0] == 'L':
-            return
         if k[0] == 'R':
             raise NotImplementedError()
+        trace.append((n, data))
+        if k[0] == 'L':
+            return "N" if n % 3 == 2 else str(n)
+        mine = str(n)
         if k[1]:
+            result = "N"
             for t in outs[n]:
-                run(t, depth + 1)
-        else:
-            i = path[pos[0]]          # IndexError when exhausted
-            pos[0] += 1
-            run(outs[n][i], depth + 1)
-    run(root)
+                result = run(t, mine, depth + 1)
+            return result
+        i = path[pos[0]]          # IndexError when exhausted
+        pos[0] += 1
+        if i < 0:
+            raise IndexError()
+        return run(outs[n][i], mine, depth + 1)
+    ret = run(root, "-")
     if pos[0] != len(path):
         raise fences_env_internal()
-    return trace
+    if full:
+        return ".".join("%d<%s" % (k, d) for k, d in trace) + ">" + ret
+    return [k for k, _ in trace]
 
 
 def fences_env_internal():
@@ -178,9 +187,10 @@ def oracle(pid, ops, root, xpaths):
             if e.target.k not in tr:
                 out.append(("target-not-applied", "entry %d: target %d not in trace %s" % (idx, e.target.k, tr), {"entry": idx}))
             try:
-                ref = simulate(ops, root, e.path)
-                if ref != tr:
-                    out.append(("not-reference-semantics", "entry %d: trace %s, reference %s" % (idx, tr, ref), {"entry": idx}))
+                ref = simulate(ops, root, e.path, full=True)
+                got = graphs.execute_full(r, e.path)
+                if ref != got:
+                    out.append(("not-reference-semantics", "entry %d: execution (node<data-from ... >returned) %s, reference semantics %s" % (idx, got, ref), {"entry": idx}))
             except Exception as ex:  # noqa
                 out.append(("not-reference-semantics", "entry %d: reference interpreter fails: %r" % (idx, ex), {"entry": idx}))
         if pid == "C05":
@@ -197,11 +207,11 @@ def oracle(pid, ops, root, xpaths):
     if pid == "C04":
         for p in xpaths:
             try:
-                want = ("ok", simulate(ops, root, p))
+                want = ("ok", simulate(ops, root, p, full=True))
             except Exception as ex:  # noqa
                 want = ("err", graphs.err_str(ex))
             try:
-                got = ("ok", graphs.execute_trace(r, p))
+                got = ("ok", graphs.execute_full(r, p))
             except Exception as ex:  # noqa
                 got = ("err", graphs.err_str(ex))
             if want != got:
@@ -230,7 +240,7 @@ def run(pid, tier):
     def body():
         for (ops, root, xp), m in zip(cases, model):
             impl = graphs.observe(ops, root, xp)
-            nn = sum(1 for o in ops if o[0] != 'T')
+            nn = sum(1 for o in ops if o[0] not in 'TG')
             ck.count(json.dumps(ops), _nontrivial(ops))
             stats["nodes_hist"][nn] = stats["nodes_hist"].get(nn, 0) + 1
             w, p, a = graphs.wf(ops, root), graphs.productive(ops), graphs.acyclic(ops)
